@@ -6,7 +6,10 @@ import random
 from typing import Any
 
 KEYS = ["a", "b", "c", "x", "y", "a.b", "x.y.z", "k_1", "type", "name"]
-SCALARS = [0, 1, 2, -5, 127, 128, True, False, None, "", "s", "t.u", "asyncio", [1, 2], [], [{"q": 1}], 1.5]
+SCALARS = [0, 1, 2, -5, 127, 128, True, False, None, "", "s", "t.u", "asyncio", [1, 2], [], [{"q": 1}], 1.5,
+           # values that are not mappings although dict() would accept them: a list of pairs, of two-character strings,
+           # of two-key mappings
+           [["k", 1], ["m", 2]], ["ab", "cd"], [{"p": 1, "q": 2}]]
 
 
 def gen_scalar(rng: random.Random) -> Any:
